@@ -308,6 +308,34 @@ fn judge(r: &Run, exp: &refsh::Outcome) -> Option<(String, String)> {
     None
 }
 
+/// Scripts outside the reference interpreter's language. A signal sent to the whole process
+/// group while the shell is blocked in `wait`: among the shell's children the one with the lower
+/// process ID is not affected (it ignores the signal; it is the sender), the one with the higher
+/// process ID is terminated — the shell must be told (SIGCHLD) and `wait` must return its status.
+fn raw_cases() -> Vec<(String, refsh::Outcome)> {
+    let m = |main: &[&str], status: i32| refsh::Outcome {
+        traces: [("M".to_string(), main.iter().map(|s| s.to_string()).collect::<Vec<_>>())].into_iter().collect(),
+        status,
+        stderr: false,
+    };
+    let mut v = vec![];
+    for sig in ["USR1", "TERM"] {
+        let n = if sig == "USR1" { 508 } else { 399 };
+        // the second job tells the first one (through a pipe) that its trap is reset; the first one
+        // then signals the group and hangs; afterwards it is removed by SIGKILL
+        v.push((
+            format!("trap '' {sig}\nmkpipe 8 9; mkpipe 6 7\n{{ read r <&8; kill -s {sig} 0; read x <&6; }} &\nb1=$!\n{{ trap - {sig}; echo r >&9; read x <&6; }} &\nwait $!\np w\nkill -s KILL $b1\nwait $b1\np e\nexec 6<&- 7>&- 8<&- 9>&-\ns 0"),
+            m(&[&format!("w:{n}"), "e:393"], 0),
+        ));
+        // three children, the affected one in the middle
+        v.push((
+            format!("trap '' {sig}\nmkpipe 8 9; mkpipe 6 7\n{{ read r <&8; kill -s {sig} 0; read x <&6; }} &\nb1=$!\n{{ trap - {sig}; echo r >&9; read x <&6; }} &\nb2=$!\n{{ read x <&6; }} &\nb3=$!\nwait $b2\np w\nkill -s KILL $b1 $b3\nwait $b1\nwait $b3\np e\nexec 6<&- 7>&- 8<&- 9>&-\ns 0"),
+            m(&[&format!("w:{n}"), "e:393"], 0),
+        ));
+    }
+    v
+}
+
 pub fn replay(case: &serde_json::Value) -> i32 {
     let script = case["script"].as_str().unwrap();
     let prefix: Vec<usize> = case["prefix"]
@@ -348,15 +376,21 @@ pub fn run(tier: Tier) -> i32 {
     let samples = Samples::new(8);
     let machinery = AtomicU64::new(0);
 
-    progs.par_iter().for_each(|prog| {
-        let exp = match refsh::run(prog) {
-            Ok(e) => e,
+    // (script, expected outcome): the generated programs with the reference interpreter's verdict,
+    // plus hand-written scripts whose outcome is stated directly
+    let mut cases: Vec<(String, refsh::Outcome)> = vec![];
+    for prog in &progs {
+        match refsh::run(prog) {
+            Ok(e) => cases.push((refsh::print(prog, Style::default()), e)),
             Err(_) => {
                 skipped.fetch_add(1, Relaxed);
-                return;
             }
-        };
-        let script = refsh::print(prog, Style::default());
+        }
+    }
+    cases.extend(raw_cases());
+    cases.par_iter().for_each(|(script, exp)| {
+        let exp = exp.clone();
+        let script = script.clone();
         let mut setup = Setup::script(&script);
         setup.auto_continue = script.contains("stopself");
         // canary: the default schedule twice must give identical observations
